@@ -142,7 +142,7 @@ class World:
     """O plus its remote parties. `names`: dict(peers=[...], ghosts=[...], trackers=[...]); `par`: the constants of the
     specification (times in units of `unit` seconds)."""
 
-    def __init__(self, names, par, unit=5.0, live=False, loss=None):
+    def __init__(self, names, par, unit=5.0, live=False, gt0=0):
         e = env()
         self.e = e
         loop = e["loop"]
@@ -175,6 +175,8 @@ class World:
         for i, g in enumerate(self.ghosts):
             self._bind(g, e["UDPv4Address"]("80.9.0.%d" % (i + 1), 8090))
         self.O = self.ov["own"]
+        # what Overlay.claim_global_time counts up: gt0 > 0 = an overlay that has been running for a while
+        self.O.my_peer._lamport_timestamp = gt0
         self.Oep = self.node["own"].sim_endpoint
         self.network = self.O.network
         self.boot = None
@@ -471,8 +473,8 @@ class LiveWorld(World):
     a live node without strategies. One tick = `unit` seconds: timers fall due, every live node's strategies step, the
     datagrams in flight are delivered / lost / delayed by the seeded schedule. Everything O does is logged."""
 
-    def __init__(self, names, par, rng, unit=0.5, loss=0.0, delay=0.0, down=0.0, up=0.1):
-        super().__init__(names, par, unit=unit, live=True)
+    def __init__(self, names, par, rng, unit=0.5, loss=0.0, delay=0.0, down=0.0, up=0.1, gt0=0):
+        super().__init__(names, par, unit=unit, live=True, gt0=gt0)
         e = self.e
         self.rng = rng
         self.loss, self.delay, self.down, self.up = loss, delay, down, up
@@ -566,11 +568,15 @@ class LiveWorld(World):
         if mid in (MSG_IRESP, MSG_NEW_IRESP):
             return "RecvIntroResp", {"p": src, "x": self._introduced(data, mid)}
         if mid == MSG_PONG and verified:
+            # a pong answers the ping of ours that carried the same identifier on the wire; it counts if that ping's
+            # cache is still alive and belongs to the current Peer object (read from the projection, not looked up by
+            # identifier: the matching itself is under test)
             ident = int.from_bytes(data[-2:], "big")
-            rc = self.O.request_cache
-            c = rc._identifiers.get(rc._create_identifier(ident, "discoverypingcache"))
-            if c is not None and any(p is c.peer for p in self.network.verified_peers):
-                return "RecvPong", {"p": src, "t": self.tm(c.start_time)}
+            sent_at = [t for (dst, t), i in self.ping_ident.items() if dst == src and i == ident]
+            live = self.project()["pingT"].get(src, frozenset())
+            hits = [t for t in sent_at if t in live]
+            if hits:
+                return "RecvPong", {"p": src, "t": max(hits)}
         return ("RecvOther", {"p": src}) if verified else ("Noop", {})
 
     def _introduced(self, data, mid):
